@@ -157,13 +157,20 @@ impl ValveProtocol {
             if total == 0 {
                 return Err(PacketBad.context("Split packet with a total of 0"));
             }
+            let (header, id) = (first_packet.header, first_packet.id);
             let mut packets = Vec::with_capacity(total as usize);
             packets.push(first_packet);
 
             for _ in 1 .. total {
                 let new_data = self.socket.receive(Some(buffer_size))?;
                 buffer = Buffer::<LittleEndian>::new(&new_data);
-                packets.push(SplitPacket::new(engine, protocol, &mut buffer)?);
+                let packet = SplitPacket::new(engine, protocol, &mut buffer)?;
+                // Every fragment of one answer carries the split header, the answer's id and its total: a datagram that
+                // does not (a stale duplicate of an earlier answer, an unsplit reply) is not a part of this answer
+                if packet.header != header || packet.id != id || packet.total != total {
+                    return Err(PacketBad.context("Split packet fragment does not belong to the answer being reassembled"));
+                }
+                packets.push(packet);
             }
 
             // The fragments can arrive in any order (the first one received is not necessarily number 0)
